@@ -8,8 +8,20 @@ from harness import kit, ser
 
 
 def drive_case(case, extra):
+    """The tree printed and parsed back; the same with every number given as a numpy scalar
+    (recorded - and judged like any other record - only where that changes anything)."""
+    rec = _drive_one(case, ser.from_json(case["e"]))
+    if '"Const"' in json.dumps(case["e"]):
+        alt = _drive_one(case, ser.from_json_numpy(case["e"]))
+        if any(alt[k] != rec[k] for k in ("s1", "p", "s2", "toks")):
+            alt["id"] = f"{case['id']}n"
+            alt["numpy_constants"] = True
+            return [rec, alt]
+    return [rec]
+
+
+def _drive_one(case, e):
     from pymbolic import parse
-    e = ser.from_json(case["e"])
     with warnings.catch_warnings():
         warnings.simplefilter("ignore")
         from pymbolic.mapper.stringifier import PREC_NONE, StringifyMapper
@@ -130,7 +142,8 @@ def run(tier, seed, out):
     for i, c in enumerate(cases):
         c["id"] = i
     kit.log(f"C06: TLC generated {len(cases)} trees ({gen.wall:.1f}s)")
-    recs = kit.drive("harness.c06", "drive_case", cases, None, chunk=500)
+    recs = [r for rs in kit.drive("harness.c06", "drive_case", cases, None, chunk=500) for r in rs]
+    out.extra["numpy_constant_builds_that_differ"] = sum(1 for r in recs if r.get("numpy_constants"))
     out.evaluations += 3 * len(recs)
 
     def corrupt(r):      # the second printed form differs from the first in one character
@@ -156,5 +169,7 @@ def run(tier, seed, out):
 def replay(path, out):
     wd = kit.fresh_workdir("C06")
     d = json.loads(open(path).read())
-    recs = kit.drive("harness.c06", "drive_case", [d["detail"]["case"]], None)
+    case = dict(d["detail"]["case"])
+    case["id"] = str(case["id"]).rstrip("n")
+    recs = [r for rs in kit.drive("harness.c06", "drive_case", [case], None) for r in rs]
     judge(out, recs, wd)
